@@ -83,7 +83,7 @@ def coq_build(jobs=16, timeout=2400):
             with open(lst, "w") as f:
                 f.write(listing)
         rc, out, dt = sh(["make", "-k", "-j", str(jobs)], cwd=COQ, timeout=timeout)
-        failed = re.findall(r"^File \"\./([^\"]+)\", line", out, re.M)
+        failed = re.findall(r"^File \"\./([^\"]+)\", line[^\n]*\nError", out, re.M)   # (a warning has the same first line)
         with open(os.path.join(BUILD, "make.log"), "w") as f:
             f.write(out)
         return dict(gen=gen, rc=rc, log=out, failed=sorted(set(failed)), wall=dt)
